@@ -1419,3 +1419,188 @@ Proof.
       * destruct (Sn p' H) as [H'|H']; [left; exact H'|]. right. exists (route, id). split; [left; reflexivity|exact H'].
       * right. exists p. split; [right; exact Hp|exact H].
 Qed.
+
+(* --- grouping a list of paths by struct id --- *)
+Lemma sumf_zero {X} (g : X -> nat) l : (forall x, In x l -> g x = 0%nat) -> sumf g l = 0%nat.
+Proof.
+  induction l as [|x l IH]; intros H; [reflexivity|]. cbn [sumf]. rewrite (H x (or_introl eq_refl)), IH; [reflexivity|].
+  intros y Hy. apply H. right. exact Hy.
+Qed.
+Lemma sumf_add {X} (g h : X -> nat) l : sumf (fun x => (g x + h x)%nat) l = (sumf g l + sumf h l)%nat.
+Proof. induction l as [|x l IH]; [reflexivity|]. cbn [sumf]. rewrite IH. lia. Qed.
+
+Lemma sumf_pick (Fr : list path) (h : path -> nat) p0 : NoDup (map snd Fr) -> In p0 Fr ->
+  sumf (fun p => ((if Z.eqb (snd p0) (snd p) then 1 else 0) * h p)%nat) Fr = h p0.
+Proof.
+  induction Fr as [|p Fr IH]; intros Hnd Hin; [contradiction|].
+  cbn [map] in Hnd. inversion Hnd as [|? ? Hnin Hnd']; subst. cbn [sumf]. destruct Hin as [->|Hin].
+  - rewrite Z.eqb_refl. rewrite sumf_zero; [lia|]. intros q Hq.
+    destruct (Z.eqb_spec (snd p0) (snd q)) as [E|E]; [|lia]. exfalso. apply Hnin. rewrite E. apply in_map. exact Hq.
+  - rewrite (IH Hnd' Hin). destruct (Z.eqb_spec (snd p0) (snd p)) as [E|E]; [|lia].
+    exfalso. apply Hnin. rewrite <- E. apply in_map. exact Hin.
+Qed.
+
+Lemma group_sum (F Fr : list path) (g : path -> nat) :
+  NoDup (map snd Fr) -> incl Fr F -> (forall p, In p F -> In (snd p) (map snd Fr)) ->
+  (forall p p', In p F -> In p' F -> snd p = snd p' -> g p = g p') ->
+  sumf g F = sumf (fun p0 => (cnt (ideq (snd p0)) F * g p0)%nat) Fr.
+Proof.
+  intros Hnd Hincl Hcov Hg.
+  assert (G : forall L, incl L F -> sumf g L = sumf (fun p0 => (cnt (ideq (snd p0)) L * g p0)%nat) Fr).
+  { induction L as [|x L IH]; intros HL.
+    - cbn [sumf]. symmetry. apply sumf_zero. intros; rewrite cnt_nil; lia.
+    - cbn [sumf]. rewrite IH by (intros y Hy; apply HL; right; exact Hy).
+      assert (HxF : In x F) by (apply HL; left; reflexivity).
+      destruct (proj1 (in_map_iff _ _ _) (Hcov x HxF)) as (x0 & E0 & Hx0).
+      rewrite (Hg x x0 HxF (Hincl _ Hx0) (eq_sym E0)).
+      rewrite <- (sumf_pick Fr g x0 Hnd Hx0) at 1. rewrite <- sumf_add. apply sumf_ext_in.
+      intros p _. rewrite cnt_cons. unfold ideq. rewrite <- E0.
+      fold (ideq (snd p)). lia. }
+  apply G. apply incl_refl.
+Qed.
+
+Lemma group_cap2 (F Fr : list path) (g w : path -> nat) :
+  NoDup (map snd Fr) -> incl Fr F -> (forall p, In p F -> In (snd p) (map snd Fr)) ->
+  (forall p p', In p F -> In p' F -> snd p = snd p' -> g p = g p') ->
+  (forall p0, In p0 Fr -> w p0 = cap2 (cnt (ideq (snd p0)) F)) ->
+  cap2 (sumf (fun p0 => (w p0 * g p0)%nat) Fr) = cap2 (sumf g F).
+Proof.
+  intros Hnd Hincl Hcov Hg Hw. rewrite (group_sum F Fr g Hnd Hincl Hcov Hg).
+  apply cap2_sumf. intros p Hp. rewrite (Hw p Hp). apply cap2_mul.
+Qed.
+
+Lemma NoDup_map_filter {X Y} (f : X -> Y) (p : X -> bool) l : NoDup (map f l) -> NoDup (map f (filter p l)).
+Proof.
+  induction l as [|x l IH]; intros H; [constructor|]. cbn [map] in H. inversion H as [|? ? Hn Hnd]; subst.
+  cbn [filter]. destruct (p x); [|auto]. cbn [map]. constructor; [|auto].
+  intros Hi. apply Hn. apply in_map_iff in Hi. destruct Hi as (y & E & Hy). apply filter_In in Hy.
+  rewrite <- E. apply in_map. apply Hy.
+Qed.
+
+Lemma cnt_ideq_map T (l : list path) : cnt (ideq T) l = cnt (fun x => x =? T) (map snd l).
+Proof. induction l as [|p l IH]; [reflexivity|]. cbn [map]. rewrite !cnt_cons, IH. reflexivity. Qed.
+
+Lemma in_dupc b (l : list cand) c : In c (flat_map (dupc b) l) -> In c l.
+Proof.
+  induction l as [|x l IH]; [intros []|]. cbn [flat_map]. intros H. apply in_app_or in H.
+  destruct H as [H|H]; [|right; auto]. left. unfold dupc in H. destruct b; cbn [In] in H; intuition.
+Qed.
+
+(* --- the invariant between the BFS state and the pruned unfolding at one level --- *)
+Record Inv (SE : senv) (d : nat) (cur : list path) (count : counts) (visited : list Z)
+           (Q : list path) (V : list Z) : Prop := {
+  inv_nd : NoDup (map snd cur) ;
+  inv_incl : incl cur Q ;
+  inv_cov : forall p, In p Q -> In (snd p) (map snd cur) ;
+  inv_cw : forall p, In p Q -> cw (count_get count (snd p)) = cap2 (cnt (ideq (snd p)) Q) ;
+  inv_vis : forall T, In T visited <-> In T V ;
+  inv_len : forall p, In p Q -> length (fst p) = d }.
+
+Lemma level_step SE d cur count visited Q V fields :
+  Inv SE d cur count visited Q V ->
+  let r := level SE cur count visited (Acc [] [] fields) in
+  let F := filter (freshb V) Q in
+  Inv SE (S d) (b_next (snd r)) (b_ncount (snd r)) (fst r) (flat_map (embeds SE) F) (map snd Q ++ V) /\
+  exists Rl, b_fields (snd r) = fields ++ Rl /\ incl Rl (flat_map (cands SE) F) /\
+             forall n dq tg, cap2 (cnt (pq n dq tg) Rl) = cap2 (cnt (pq n dq tg) (flat_map (cands SE) F)).
+Proof.
+  intros [Hnd Hincl Hcov Hcw Hvis Hlen]. cbv zeta.
+  set (F := filter (freshb V) Q).
+  assert (HNX0 : NX (Acc [] [] fields)).
+  { split; [constructor|]. intros T. cbn. split; [intros []|lia]. }
+  destruct (level_spec SE count cur visited (Acc [] [] fields) Hnd HNX0) as (Lv & Lf & Lc & LN & Ln).
+  cbv zeta in *. set (r := level SE cur count visited (Acc [] [] fields)) in *.
+  assert (Hfr : forall p, freshb visited p = freshb V p).
+  { intros p. unfold freshb. f_equal. destruct (memZ (snd p) V) eqn:E.
+    - apply memZ_In. apply Hvis. apply memZ_In. exact E.
+    - apply memZ_false. rewrite Hvis. apply memZ_false. exact E. }
+  rewrite (filter_ext _ _ Hfr cur) in *.
+  set (Fr := filter (freshb V) cur) in *.
+  assert (FrF : incl Fr F).
+  { intros p Hp. apply filter_In in Hp. apply filter_In. split; [apply Hincl; apply Hp|apply Hp]. }
+  assert (FrNd : NoDup (map snd Fr)) by (apply NoDup_map_filter; exact Hnd).
+  assert (Fcov : forall p, In p F -> In (snd p) (map snd Fr)).
+  { intros p Hp. apply filter_In in Hp. destruct Hp as [HpQ Hf].
+    destruct (proj1 (in_map_iff _ _ _) (Hcov p HpQ)) as (p0 & E & Hp0).
+    apply in_map_iff. exists p0. split; [exact E|]. apply filter_In. split; [exact Hp0|].
+    unfold freshb in *. rewrite E. exact Hf. }
+  assert (FinQ : forall p, In p F -> In p Q) by (intros p Hp; apply filter_In in Hp; apply Hp).
+  assert (Fw : forall p0, In p0 Fr -> cw (count_get count (snd p0)) = cap2 (cnt (ideq (snd p0)) F)).
+  { intros p0 Hp0. pose proof (FrF _ Hp0) as HF. rewrite (Hcw p0 (FinQ _ HF)). f_equal.
+    unfold F, cnt. rewrite filter_filter'. f_equal. apply filter_ext_in. intros x _.
+    unfold ideq. destruct (Z.eqb_spec (snd x) (snd p0)) as [E|E]; [|symmetry; apply andb_false_r].
+    rewrite andb_true_r. apply filter_In in HF. destruct HF as [_ HF]. unfold freshb in *. rewrite E. symmetry. exact HF. }
+  (* the count of an embedded id in terms of Fr *)
+  assert (Ecnt : forall T', cap2 (count_get (b_ncount (snd r)) T')
+                            = cap2 (cnt (ideq T') (flat_map (embeds SE) F))).
+  { intros T'. rewrite Lc. cbn [b_ncount count_get Nat.add]. rewrite cnt_flat_map.
+    apply (group_cap2 F Fr (fun p => cnt (ideq T') (embeds SE p)) (fun p => cw (count_get count (snd p))));
+      auto.
+    intros [r1 T1] [r2 T2] _ _ E. cbn [snd] in E. subst T2.
+    rewrite !cnt_ideq_map, (embeds_ids SE r1 r2 T1). reflexivity. }
+  assert (Epos : forall p', In p' (flat_map (embeds SE) F) -> (1 <= count_get (b_ncount (snd r)) (snd p'))%nat).
+  { intros p' Hp'. assert (H1 : (1 <= cnt (ideq (snd p')) (flat_map (embeds SE) F))%nat).
+    { apply (cnt_in_pos _ _ p' Hp'). unfold ideq. apply Z.eqb_refl. }
+    pose proof (Ecnt (snd p')) as E. unfold cap2 in E. lia. }
+  split.
+  - constructor.
+    + apply LN.
+    + intros p' Hp'. destruct (Ln p' Hp') as [[]|(p & Hp & H)]. apply in_flat_map. exists p. auto.
+    + intros p' Hp'. apply LN. specialize (Epos p' Hp'). lia.
+    + intros p' Hp'. rewrite <- Ecnt. apply cw_cap2. apply Epos. exact Hp'.
+    + intros T. rewrite Lv, in_app_iff, Hvis. split; intros [H|H]; auto.
+      * left. apply in_map_iff in H. destruct H as (p & <- & Hp). apply in_map. apply Hincl. exact Hp.
+      * right. apply in_map_iff in H. destruct H as (p & <- & Hp). apply Hcov. exact Hp.
+    + intros p' Hp'. apply in_flat_map in Hp'. destruct Hp' as (p & Hp & Hp').
+      rewrite (embeds_len _ _ _ Hp'). f_equal. apply Hlen. apply FinQ. exact Hp.
+  - eexists. split; [exact Lf|]. split.
+    + intros c Hc. apply in_flat_map in Hc. destruct Hc as (p & Hp & Hc). apply in_dupc in Hc.
+      apply in_flat_map. exists p. auto.
+    + intros n dq tg. rewrite !cnt_flat_map.
+      rewrite (sumf_ext_in _ (fun p => (cw (count_get count (snd p)) * cnt (pq n dq tg) (cands SE p))%nat))
+        by (intros p _; apply cnt_dupc).
+      apply (group_cap2 F Fr (fun p => cnt (pq n dq tg) (cands SE p)) (fun p => cw (count_get count (snd p))));
+        auto.
+      intros [r1 T1] [r2 T2] H1 H2 E. cbn [snd] in E. subst T2. apply cands_cnt.
+      pose proof (Hlen _ (FinQ _ H1)) as L1. pose proof (Hlen _ (FinQ _ H2)) as L2. cbn [fst] in L1, L2. congruence.
+Qed.
+
+Theorem bfs_vs_pruned SE : forall fuel d cur count visited fields Q V,
+  Inv SE d cur count visited Q V ->
+  exists R, bfs fuel SE cur count visited fields = fields ++ R /\
+            incl R (pruned fuel SE Q V) /\
+            forall n dq tg, cap2 (cnt (pq n dq tg) R) = cap2 (cnt (pq n dq tg) (pruned fuel SE Q V)).
+Proof.
+  induction fuel as [|f IH]; intros d cur count visited fields Q V HI.
+  { exists []. cbn [bfs pruned]. rewrite app_nil_r. split; [reflexivity|]. split; [intros ? []|reflexivity]. }
+  destruct cur as [|c0 cur'].
+  - assert (Q = []).
+    { destruct Q as [|p Q]; [reflexivity|]. destruct (inv_cov _ _ _ _ _ _ _ HI p (or_introl eq_refl)). }
+    subst Q. exists []. cbn [bfs]. rewrite pruned_nil, app_nil_r.
+    split; [reflexivity|]. split; [intros ? []|reflexivity].
+  - remember (c0 :: cur') as cur eqn:Ecur.
+    destruct (level_step SE d cur count visited Q V fields HI) as (HI' & Rl & Hf & Hincl & Hcap).
+    cbv zeta in *.
+    assert (Eb : bfs (S f) SE cur count visited fields =
+                 bfs f SE (b_next (snd (level SE cur count visited (Acc [] [] fields))))
+                     (b_ncount (snd (level SE cur count visited (Acc [] [] fields))))
+                     (fst (level SE cur count visited (Acc [] [] fields)))
+                     (b_fields (snd (level SE cur count visited (Acc [] [] fields))))).
+    { rewrite Ecur. cbn [bfs]. rewrite <- Ecur. destruct (level SE cur count visited (Acc [] [] fields)). reflexivity. }
+    destruct (IH _ _ _ _ (b_fields (snd (level SE cur count visited (Acc [] [] fields)))) _ _ HI')
+      as (R' & Hb & Hincl' & Hcap').
+    exists (Rl ++ R'). rewrite Eb, Hb, Hf, <- app_assoc. split; [reflexivity|]. cbn [pruned]. split.
+    + intros c Hc. apply in_app_or in Hc. apply in_or_app. destruct Hc as [Hc|Hc]; [left; auto|right; auto].
+    + intros n dq tg. rewrite !cnt_app, cap2_add, Hcap, Hcap', <- cap2_add. reflexivity.
+Qed.
+
+Lemma Inv_root SE id : Inv SE 0 [([], id)] [] [] [([], id)] [].
+Proof.
+  constructor.
+  - cbn. constructor; [intros []|constructor].
+  - apply incl_refl.
+  - intros p [<-|[]]. left. reflexivity.
+  - intros p [<-|[]]. cbn. unfold ideq. cbn [snd]. rewrite Z.eqb_refl. reflexivity.
+  - intros T. reflexivity.
+  - intros p [<-|[]]. reflexivity.
+Qed.
